@@ -149,6 +149,7 @@ func registerVxFS(e *Engine) {
 	})
 	// ghost state queries (ordering rules); natively these come from the syscall trace
 	e.reg(vxPath+".FSEvents", func(ex *Exec, fr *frame, args []Value) Value {
+		ex.ghostQueried = true // an answer the native twin cannot give: confirm by concrete re-execution
 		pre := argStr(ex, args[0])
 		n := 0
 		for _, ev := range ex.fs().events {
@@ -159,18 +160,22 @@ func registerVxFS(e *Engine) {
 		return K(64, uint64(n))
 	})
 	e.reg(vxPath+".FSFileDirty", func(ex *Exec, fr *frame, args []Value) Value {
+		ex.ghostQueried = true // an answer the native twin cannot give: confirm by concrete re-execution
 		n := ex.fs().nodes[ex.fsPath(args[0])]
 		return KBool(n != nil && n.dirty)
 	})
 	e.reg(vxPath+".FSDirDirty", func(ex *Exec, fr *frame, args []Value) Value {
+		ex.ghostQueried = true // an answer the native twin cannot give: confirm by concrete re-execution
 		n := ex.fs().nodes[ex.fsPath(args[0])]
 		return KBool(n != nil && n.entriesDirty)
 	})
 	e.reg(vxPath+".FSComplete", func(ex *Exec, fr *frame, args []Value) Value {
+		ex.ghostQueried = true // an answer the native twin cannot give: confirm by concrete re-execution
 		n := ex.fs().nodes[ex.fsPath(args[0])]
 		return KBool(n != nil && n.complete && n.openW == 0)
 	})
 	e.reg(vxPath+".FSPublished", func(ex *Exec, fr *frame, args []Value) Value {
+		ex.ghostQueried = true // an answer the native twin cannot give: confirm by concrete re-execution
 		out := []Value{}
 		for _, p := range ex.fs().published {
 			out = append(out, p)
@@ -178,6 +183,7 @@ func registerVxFS(e *Engine) {
 		return out
 	})
 	e.reg(vxPath+".FSUnlinked", func(ex *Exec, fr *frame, args []Value) Value {
+		ex.ghostQueried = true // an answer the native twin cannot give: confirm by concrete re-execution
 		out := []Value{}
 		for _, p := range ex.fs().unlinked {
 			out = append(out, p)
@@ -185,6 +191,7 @@ func registerVxFS(e *Engine) {
 		return out
 	})
 	e.reg(vxPath+".FSTrace", func(ex *Exec, fr *frame, args []Value) Value {
+		ex.ghostQueried = true // an answer the native twin cannot give: confirm by concrete re-execution
 		out := []Value{}
 		for _, p := range ex.fs().trace {
 			out = append(out, p)
